@@ -2,7 +2,7 @@
    (a) codes of variant-independent disagreements (1 row evaluation, 3 hash function, 4 span of a created group,
        5 groups selected by the time range, 6 span / key ranges of the group created by re-sharding, 7 key ranges of a
        group created in a range-sharded policy) and
-   (b) a bit mask over the 64 model variants (hint range repair, use_cache, per_group_key, v_or, v_and, v_reset) saying which of them
+   (b) a bit mask over the 128 model variants (hard-write read repair, hint range repair, use_cache, per_group_key, v_or, v_and, v_reset) saying which of them
        reproduce the implementation: the shard every row of every write batch was mapped to (batch_step with the group /
        measurement / shard-key caches), getConditionTags' output (as a set of tag sets) and the SET of shards
        TargetShards returned for every selected group. *)
@@ -23,6 +23,7 @@ Record ccase := {
   cc_qm : nat;                           (* measurement the query reads *)
   cc_born : list Z;                      (* per group: 2i = created by the routing of point i, -2 = pre-existing,
                                             2i-1 = created by Data.ReSharding before the batch starting at point i *)
+  cc_hardwrite : bool;                   (* coordinator.hard-write *)
   cc_walive : list (list nat);           (* per group: the alive shard indexes while the rows were written (the groups carry the
                                             list in force when the query runs) *)
   cc_reshard : option (Z * list str);    (* split time and split points of the Data.ReSharding of this case *)
@@ -155,17 +156,21 @@ Definition condtags_ok (v : variant) (c : ccase) : bool :=
       end
   end.
 
-Definition targets_ok (v : variant) (per_group_key : bool) (c : ccase) : bool :=
+(* hw = the hard-write read repair is in the tree: lookup in the writers' list (all shards), then the alive ones are kept;
+   without hard-write both readings coincide *)
+Definition targets_ok (v : variant) (per_group_key : bool) (hw : bool) (c : ccase) : bool :=
   let m := qmst c in
   let qs := query_groups (m_cfg m) (cc_tmin c) (cc_tmax c) in
   forallb (fun g =>
              let gid := if per_group_key then g_id g else match qs with g0 :: _ => g_id g0 | [] => g_id g end in
              match find (fun x => N.eqb (fst x) (g_id g)) (cc_targets c) with
-             | Some (_, ids) => seteq_b N.eqb (map s_id (target_group xxh64 v (cfg_at m gid) g (cc_cond c))) ids
+             | Some (_, ids) =>
+                 seteq_b N.eqb (map s_id (if hw && cc_hardwrite c then target_group_hw xxh64 v (cfg_at m gid) g (cc_cond c)
+                                          else target_group xxh64 v (cfg_at m gid) g (cc_cond c))) ids
              | None => false
              end) qs.
 
-Definition hints_ok (v : variant) (per_group_key : bool) (range_rep : bool) (c : ccase) : bool :=
+Definition hints_ok (v : variant) (per_group_key : bool) (range_rep : bool) (hw : bool) (c : ccase) : bool :=
   let m := qmst c in
   let qs := query_groups (m_cfg m) (cc_tmin c) (cc_tmax c) in
   forallb (fun h : bool * option (list (N * list N)) =>
@@ -176,14 +181,16 @@ Definition hints_ok (v : variant) (per_group_key : bool) (range_rep : bool) (c :
                             let gid := if per_group_key then g_id g else match qs with g0 :: _ => g_id g0 | [] => g_id g end in
                             match find (fun x => N.eqb (fst x) (g_id g)) tg with
                             | Some (_, ids) =>
-                                seteq_b N.eqb (map s_id (target_hint_kind xxh64 (fst h) range_rep v (cfg_at m gid) g (cc_cond c))) ids
+                                seteq_b N.eqb (map s_id (if hw && cc_hardwrite c
+                                                         then target_hint_hw xxh64 (fst h) range_rep v (cfg_at m gid) g (cc_cond c)
+                                                         else target_hint_kind xxh64 (fst h) range_rep v (cfg_at m gid) g (cc_cond c))) ids
                             | None => false
                             end) qs
              end) (cc_hints c).
 
-(* bit index = 32*hint_range_repaired + 16*use_cache_repaired + 8*per_group_key + 4*v_or + 2*v_and + v_reset  (use_cache_repaired = the shard key is
+(* bit index = 64*hard_write_read_repaired + 32*hint_range_repaired + 16*use_cache_repaired + 8*per_group_key + 4*v_or + 2*v_and + v_reset  (use_cache_repaired = the shard key is
    looked up for every row) *)
-Definition mask_of (c : ccase) : N :=
+Definition mask_hw (hw : bool) (c : ccase) : N :=
   let w_cur := fst (batches_ok true c b_empty 0 (cc_points c)) in
   let w_rep := fst (batches_ok false c b_empty 0 (cc_points c)) in
   (* shared and short-circuited: getConditionTags per reading of OR/AND/reset, TargetShards per (reading, group key), the
@@ -193,9 +200,9 @@ Definition mask_of (c : ccase) : N :=
        let v := {| v_or := vo; v_and := va; v_reset := vr |} in
        if condtags_ok v c then
          flat_map (fun pk : bool =>
-           if targets_ok v pk c then
+           if targets_ok v pk hw c then
              flat_map (fun rr : bool =>
-               if hints_ok v pk rr c then
+               if hints_ok v pk rr hw c then
                  map (fun cf : bool =>
                    if (if cf then w_rep else w_cur)
                    then N.shiftl 1%N ((if rr then 32 else 0) + (if cf then 16 else 0) + (if pk then 8 else 0) + (if vo then 4 else 0) + (if va then 2 else 0) + (if vr then 1 else 0))%N
@@ -204,8 +211,13 @@ Definition mask_of (c : ccase) : N :=
            else []) [false; true]
        else []) [false; true]) [false; true]) [false; true])
     0%N.
+(* bits 64..127: the same with the hard-write read repair; a case without hard-write cannot tell the two apart *)
+Definition mask_of (c : ccase) : N :=
+  let m0 := mask_hw false c in
+  let m1 := if cc_hardwrite c then mask_hw true c else m0 in
+  (m0 + N.shiftl m1 64)%N.
 
-Definition full_mask : N := 18446744073709551615%N.
+Definition full_mask : N := 340282366920938463463374607431768211455%N.
 
 Definition check_case (c : ccase) : list N * N :=
   (flat_map (point_codes c) (cc_points c)
